@@ -871,6 +871,8 @@ def register(eng):
              if t == "From" and "from" in methods and cself.split("::")[-1] == want.split("::")[-1] and eng.canon_type(itg, mod) == have]
         if len(c) == 1:
             return eng.call_fn(c[0], [v])
+        if have.split("::")[-1] == want.split("::")[-1]:
+            return v        # `From<T> for T` (the module guess for an imported type was off)
         raise Unmodelled("error conversion From<%s> for %s" % (have, want))
     eng.convert_from = convert_from
 
